@@ -10,7 +10,7 @@ def add(id, technique, text, note):
 
 add("C01", "crash-isolated runtime exploration: Go runtime checks (panic via recover, fatal errors and hangs via worker exit status, write-ahead progress log and watchdogs) under systematic sweeps, grammar programs, byte mutations and resource shapes",
     "Runtime exploration: complete sweeps of every registered filter/resolver step/tag form over a ~100-value zoo of Go context values, grammar-generated programs over the whole vocabulary with loader files, byte-level mutations of fixtures, and 38 resource shapes (deep nesting, all macro recursion routes, cyclic file graphs) run in isolated worker processes; the oracle is the result shape (exactly one of template/error, output/error) plus absence of panic, process death and confirmed hang. Held = none observed on the executions run.",
-    "Unbounded 'never loops forever' is restated as bounded progress (per-case watchdog 20 s - the median case takes about 50 microseconds -, confirmed on an isolated re-run with a 60 s budget and a goroutine dump). Context functions/Stringers are total by construction. Must*/Render* wrappers that are documented to panic are not exercised.")
+    "Unbounded 'never loops forever' is restated as bounded progress (per-case watchdog 30 s - the median case takes about 50 microseconds -, confirmed on an isolated re-run with a 60 s budget and a goroutine dump). Context functions/Stringers are total by construction. Must*/Render* wrappers that are documented to panic are not exercised.")
 add("C02", "information-flow (taint) runtime monitor: uniquely marked context strings, output scanned for raw marker material; filter sweep plus random opt-out-free programs; repeated executions with swapped safe/tainted contexts",
     "Runtime exploration: every string leaf of a ~110-value context carries a marker made of < > & ' \"; all registered filters (minus declared opt-outs) are swept in 17 syntactic positions and random opt-out-free programs over the whole vocabulary (files, macros, inheritance, filter tag, array literals ...) are executed; the output is scanned for any raw special character that is not engine-originated. Held = no leak on the executions observed.",
     "Template text and literals are generated free of the special characters; the only engine-originated markup accepted is the '<type Value>' placeholder. In programs using the filter tag (which post-processes rendered text and can mangle that placeholder) < > & are not judged; raw quotes (which only the marker can contribute) still are.")
